@@ -289,12 +289,16 @@ def _ods_table_rows(table_or_row_container_element):
     the ones nested in ``table:table-header-rows`` ("rows to repeat"),
     ``table:table-row-group`` (grouped rows) and ``table:table-rows``.
     """
-    for child in table_or_row_container_element:
-        if child.tag == _TABLE_PREFIX + "table-row":
+    # NOTE: Keep track of the containers left to process instead of using recursion, they can be nested deeply.
+    children_iterators = [iter(table_or_row_container_element)]
+    while children_iterators:
+        child = next(children_iterators[-1], None)
+        if child is None:
+            children_iterators.pop()
+        elif child.tag == _TABLE_PREFIX + "table-row":
             yield child
         elif child.tag in _TABLE_ROW_CONTAINER_TAGS:
-            for nested_row in _ods_table_rows(child):
-                yield nested_row
+            children_iterators.append(iter(child))
 
 
 def ods_rows(source_ods_path, sheet=1):
